@@ -30,6 +30,19 @@ Print Assumptions C14_reuse_label_is_mode.
 Example C14_reuse_example : reuse_labels true 2 [1; 1; 1] 1 [0; 0; 0] = (1, [0; 0; 0]) /\ covers 1 [0; 0; 0] = true.
 Proof. split; reflexivity. Qed.
 
+(** the labels handed to the kernels are the clusters of the resampled particles, row by row, for every order of the resampled
+    indices (multinomial resampling returns them unsorted) *)
+Theorem C14_assignment_is_cluster_of_the_particle : forall U (predict : U -> nat) pool (d : U) idx r,
+  r < length idx -> nth r (assign predict pool d idx) 0 = predict (nth r (gather pool d idx) d).
+Proof. exact @assign_pointwise. Qed.
+Print Assumptions C14_assignment_is_cluster_of_the_particle.
+(** "predict each distinct ancestor once and repeat by multiplicity" is refuted for unsorted indices: pool positions 0,1,2 with
+    clusters 0,1,0; indices [2;1;1]: distinct ancestors [1;2] with counts [2;1] give labels [1;1;0], the particles' clusters are [0;1;1] *)
+Example C14_repeat_shortcut_refuted :
+  assign (fun u => nth u [0; 1; 0] 0) [0; 1; 2] 0 [2; 1; 1] = [0; 1; 1]
+  /\ repeat_by (map (fun u => nth u [0; 1; 0] 0) [1; 2]) [2; 1] = [1; 1; 0].
+Proof. split; reflexivity. Qed.
+
 Theorem C14_modes_count : forall K labels, length (occurring K labels) <= K.
 Proof. exact modes_count. Qed.
 Print Assumptions C14_modes_count.
